@@ -458,6 +458,20 @@ impl ProofVerifier {
         )?;
 
         for ne_proof in primary_proof.ne_proofs.iter() {
+            // A predicate can only be proven about a hidden attribute: for an attribute
+            // that this sub-proof reveals, the equality proof has no response taking part
+            // in the verification equation, so an entry of `eq_proof.m` under that name
+            // would link the predicate proof to nothing.
+            if sub_proof_request
+                .revealed_attrs
+                .contains(&ne_proof.predicate.attr_name)
+            {
+                return Err(err_msg!(
+                    ProofRejected,
+                    "Predicate on '{}', which the sub proof reveals",
+                    ne_proof.predicate.attr_name
+                ));
+            }
             // The predicate must be proven about the attribute signed in this very
             // credential: its response has to be the equality proof's response for the
             // same attribute (the honest prover copies that value).
